@@ -1,7 +1,7 @@
 (* C14 — non-vacuity: concrete inhabitants of the theorems' hypotheses, and the witnesses of the
    defects that were repaired in /repo (they now evaluate to the corrected behaviour). *)
 From Coq Require Import List NArith ZArith Bool.
-From V.C14 Require Import WireModel WireSpec.
+From V.C14 Require Import WireModel WireSpec BytesModel BytesSpec.
 Import ListNotations.
 Open Scope N_scope.
 
@@ -39,4 +39,21 @@ Proof. vm_compute. reflexivity. Qed.
 Example ex_group_depth :
   parse_fields {| o_msg := []; o_packed := []; o_pelem := []; o_max := 2 |} 0
                [83; 91; 8; 1; 92; 84] = Err EMaxDepth.
+Proof. vm_compute. reflexivity. Qed.
+
+(* ---------------------------------------------------------------------- (2) byte codecs *)
+Definition ex_bytes : BytesModel.bytes := [0; 255; 38; 61; 43; 32; 126; 37; 10; 228; 184; 173].
+Example ex_bytes_ok : bytes_ok ex_bytes.
+Proof. repeat constructor. Qed.
+Example ex_b64 : base64_encode ex_bytes = [65;80;56;109;80;83;115;103;102;105;85;75;53;76;105;116].
+Proof. vm_compute. reflexivity. Qed.
+(* repaired defect (fix: commit 5f95786): "&=+" used to pass through rawurlencode unescaped *)
+Example ex_rawurl : rawurlencode [38; 61; 43; 32; 126] = [37;50;54; 37;51;68; 37;50;66; 37;50;48; 126].
+Proof. vm_compute. reflexivity. Qed.
+(* decoders on malformed input: base64 false, urldecode returns its input *)
+Example ex_b64_bad : base64_decode [65; 65; 45; 61] = None.
+Proof. vm_compute. reflexivity. Qed.
+Example ex_b64_newlines : base64_decode [81; 10; 85; 13; 61; 10; 61; 10] = Some [65].
+Proof. vm_compute. reflexivity. Qed.
+Example ex_url_bad : urldecode [37; 52; 71] = [37; 52; 71].
 Proof. vm_compute. reflexivity. Qed.
